@@ -229,6 +229,7 @@ type bprover struct {
 	rngMemo  map[atom]irange
 	rngBusy  map[atom]bool
 	canon    map[*ssa.UnOp]ssa.Value // memory loads -> representative value
+	canonLen map[*ssa.Call]ssa.Value // len(map) calls -> representative value
 	gcache   map[*ssa.BasicBlock][]bfact
 	mem      *memInfo
 	depth    int
@@ -247,7 +248,7 @@ func newProver(w *World, fn *ssa.Function, mem *memInfo) *bprover {
 		linMemo: map[ssa.Value]blin{}, lenMemo: map[ssa.Value]blin{},
 		rngMemo: map[atom]irange{}, rngBusy: map[atom]bool{},
 		gcache: map[*ssa.BasicBlock][]bfact{}, afMemo: map[atom][]bfact{}, afBusy: map[atom]bool{}}
-	p.canon = canonLoads(fn, mem)
+	p.canon, p.canonLen = canonLoads(fn, mem)
 	p.iv = intervalPass(fn)
 	return p
 }
@@ -277,6 +278,9 @@ func (p *bprover) atomStr(a atom) string {
 func (p *bprover) srcOf(v ssa.Value) string {
 	switch x := v.(type) {
 	case *memVal:
+		if strings.HasPrefix(x.key, "ML@") {
+			return "len(map)"
+		}
 		if x.addr != nil {
 			if x.blk != nil {
 				return "*" + p.addrStr(x.addr) + "@join"
@@ -458,6 +462,14 @@ func (p *bprover) linOf1(v ssa.Value) blin {
 		if b, ok := x.Call.Value.(*ssa.Builtin); ok {
 			switch b.Name() {
 			case "len":
+				// the length of a map changes under updates: it is not a property
+				// of the map value; each len(m) is its own unknown (no identification)
+				if _, isMap := x.Call.Args[0].Type().Underlying().(*types.Map); isMap {
+					if c, ok := p.canonLen[x]; ok && c != ssa.Value(x) {
+						return blatom(atom{aVal, c})
+					}
+					return self
+				}
 				return p.lenOf(x.Call.Args[0])
 			case "cap":
 				return blatom(atom{aCap, p.canonVal(x.Call.Args[0])})
@@ -901,6 +913,9 @@ func (p *bprover) valRange(v ssa.Value) irange { return p.rangeOfLin(p.linOf(v))
 func (p *bprover) atomRange1(v ssa.Value, tr irange) irange {
 	switch x := v.(type) {
 	case *memVal:
+		if strings.HasPrefix(x.key, "ML@") {
+			return irange{0, 0, true, false} // the length of a map
+		}
 		// the invariant of a field holds for every value the location ever has
 		if strings.HasPrefix(x.cat, "F:") {
 			name := strings.TrimPrefix(x.cat[:strings.IndexByte(x.cat, '|')], "F:")
